@@ -1,0 +1,134 @@
+// Copyright 2017 Pilosa Corp.
+//
+// Licensed under the Apache License, Version 2.0 (the "License");
+// you may not use this file except in compliance with the License.
+// You may obtain a copy of the License at
+//
+//     http://www.apache.org/licenses/LICENSE-2.0
+//
+// Unless required by applicable law or agreed to in writing, software
+// distributed under the License is distributed on an "AS IS" BASIS,
+// WITHOUT WARRANTIES OR CONDITIONS OF ANY KIND, either express or implied.
+// See the License for the specific language governing permissions and
+// limitations under the License.
+
+//go:build verif
+// +build verif
+
+package pilosa
+
+import (
+	"context"
+	"os"
+
+	"github.com/pilosa/pilosa/logger"
+)
+
+// Export shims for the verification harness (/verif, property C09). Add-only, tag-guarded.
+
+// VerifC09Frag is a fragment (shard 0) on a path of the harness's choice whose snapshot queue
+// worker runs only when the harness lets it.
+type VerifC09Frag struct {
+	f    *fragment
+	gate chan struct{}
+}
+
+// VerifC09OpenFragment opens a fragment of the given kind ("std", "mutex", "int") at path.
+// With queue set, snapshots requested by the write paths wait in a queue whose single worker
+// takes one token from the gate per snapshot (Release); without it they run inline, as for a
+// fragment without a holder.
+func VerifC09OpenFragment(path, kind string, maxOpN int, queue bool) (*VerifC09Frag, error) {
+	f := newFragment(path, "i", "f", viewStandard, 0, 0)
+	f.CacheType = CacheTypeNone
+	f.MaxOpN = maxOpN
+	if kind == "mutex" {
+		f.mutexVector = newRowsVector(f)
+	}
+	v := &VerifC09Frag{f: f}
+	if queue {
+		q := make(chan *fragment, 8)
+		v.gate = make(chan struct{}, 1)
+		f.snapshotQueue = q
+		l := logger.NewStandardLogger(os.Stderr)
+		go func() {
+			for fr := range q {
+				<-v.gate
+				if err := fr.protectedSnapshot(true); err != nil {
+					l.Printf("snapshot error: %v", err)
+				}
+				fr.snapshotCond.Broadcast()
+			}
+		}()
+	}
+	if err := f.Open(); err != nil {
+		return nil, err
+	}
+	return v, nil
+}
+
+func (v *VerifC09Frag) SetBit(row, col uint64) error   { _, err := v.f.setBit(row, col); return err }
+func (v *VerifC09Frag) ClearBit(row, col uint64) error { _, err := v.f.clearBit(row, col); return err }
+func (v *VerifC09Frag) SetValue(col uint64, depth uint, val int64) error {
+	_, err := v.f.setValue(col, depth, val)
+	return err
+}
+func (v *VerifC09Frag) Import(rows, cols []uint64, clear bool) error {
+	return v.f.bulkImport(rows, cols, &ImportOptions{Clear: clear})
+}
+func (v *VerifC09Frag) ImportValue(cols []uint64, vals []int64, depth uint) error {
+	return v.f.importValue(cols, vals, depth, false)
+}
+func (v *VerifC09Frag) ImportRoaring(data []byte, clear bool) error {
+	return v.f.importRoaring(context.Background(), data, clear)
+}
+func (v *VerifC09Frag) SetRow(cols []uint64, row uint64) error {
+	_, err := v.f.setRow(NewRow(cols...), row)
+	return err
+}
+func (v *VerifC09Frag) ClearRow(row uint64) error { _, err := v.f.clearRow(row); return err }
+func (v *VerifC09Frag) Snapshot() error           { return v.f.Snapshot() }
+func (v *VerifC09Frag) Close() error              { return v.f.Close() }
+
+// ImportValueAwaits tells whether ImportValue with n values would take the path that waits for a
+// snapshot before it returns.
+func (v *VerifC09Frag) ImportValueAwaits(n int, depth uint) bool {
+	v.f.mu.Lock()
+	defer v.f.mu.Unlock()
+	return !(n*int(depth+1)+v.f.opN < v.f.MaxOpN)
+}
+
+// Pending reports whether a snapshot is queued.
+func (v *VerifC09Frag) Pending() bool {
+	v.f.mu.Lock()
+	defer v.f.mu.Unlock()
+	return v.f.snapshotting
+}
+
+// Release lets the queue worker run one snapshot (now or when the next one is requested).
+func (v *VerifC09Frag) Release() {
+	select {
+	case v.gate <- struct{}{}:
+	default:
+	}
+}
+
+// Unrelease takes back a token the worker has not used.
+func (v *VerifC09Frag) Unrelease() {
+	select {
+	case <-v.gate:
+	default:
+	}
+}
+
+// Await waits until no snapshot is queued or running.
+func (v *VerifC09Frag) Await() { v.f.awaitSnapshot() }
+
+// Positions returns every bit as row*ShardWidth + column.
+func (v *VerifC09Frag) Positions() []uint64 {
+	var out []uint64
+	_ = v.f.forEachBit(func(rowID, columnID uint64) error {
+		out = append(out, rowID*ShardWidth+columnID%ShardWidth)
+		return nil
+	})
+	return out
+}
